@@ -16,6 +16,9 @@ pub struct TokenBuffer<'t> {
     tokens: Vec<Token<'t>>,
     last_token_location: u32,
     last_token_number: TokenNumber,
+    // Line and column where the last added token ended, i.e. where a following gap starts
+    last_token_end_line: u32,
+    last_token_end_column: u32,
 }
 
 impl<'t> TokenBuffer<'t> {
@@ -25,6 +28,8 @@ impl<'t> TokenBuffer<'t> {
             tokens: Vec::new(),
             last_token_location: 0,
             last_token_number: 0,
+            last_token_end_line: 1,
+            last_token_end_column: 1,
         }
     }
 
@@ -34,11 +39,28 @@ impl<'t> TokenBuffer<'t> {
         if self.last_token_location < new_start {
             use crate::lexer::location::Location;
             use crate::lexer::token::INVALID_TOKEN;
+            // The gap starts where the last token ended. Its end position is derived from its
+            // text with the same convention the scanner uses (only '\n' starts a new line).
+            let start_line = self.last_token_end_line.max(1);
+            let start_column = self.last_token_end_column.max(1);
+            let (end_line, end_column) = input
+                [self.last_token_location as usize..new_start as usize]
+                .chars()
+                .fold((start_line, start_column), |(line, column), c| {
+                    if c == '\n' {
+                        (line + 1, 1)
+                    } else {
+                        (line, column + 1)
+                    }
+                });
             let gap_location = Location {
+                start_line,
+                start_column,
+                end_line,
+                end_column,
                 start: self.last_token_location,
                 end: new_start,
                 file_name: token.location.file_name.clone(),
-                ..Location::default()
             };
             // Prevent overflow when last token was EOI with MAX token number
             let next_token_number = if self.last_token_number == TokenNumber::MAX {
@@ -58,6 +80,10 @@ impl<'t> TokenBuffer<'t> {
         }
         self.last_token_location = token.location.end;
         self.last_token_number = token.token_number;
+        if token.location.end_line > 0 {
+            self.last_token_end_line = token.location.end_line;
+            self.last_token_end_column = token.location.end_column;
+        }
         self.tokens.push(token);
     }
 
